@@ -14,6 +14,7 @@ type GenOptions struct {
 	Foreign    bool // allow differences that forward updates of other sequences, and unknown channels
 	Faults     bool // allow transient failures of difference requests
 	Fresh      bool // allow channels without stored state (met during the run) and access hashes learnt late
+	Seq        bool // number containers (seq / seq_start): they go through the seq box (gaps, duplicates, late arrivals)
 }
 
 // Gen builds a random scenario: a server log mixing new messages, pts-bearing non-message
@@ -111,11 +112,38 @@ func Gen(r *hc.RNG, o GenOptions) (Scenario, map[int]bool) {
 	pushedPlain := map[int]bool{}
 	// schedule
 	inOrder := r.Range(20, 90)
-	var delayed []int
+	var delayed []Action
+	var sent []Action
+	sq := 0 // the server's seq
+	// a container the server sends now: numbered or not
+	container := func(ids []int) Action {
+		plainOnly := !o.Seq || !r.Chance(70)
+		for _, id := range ids {
+			// when a parked container is routed is the seq box's business: the harness predicts the
+			// position a channel is met at only for unnumbered pushes, so updates of channels that
+			// are not stored from the start with a known hash never travel in numbered containers
+			if e := s.Log[id-1]; s.Fresh[e.Chan] || s.Late[e.Chan] {
+				plainOnly = true
+			}
+		}
+		if plainOnly {
+			return Action{Op: "p", IDs: ids}
+		}
+		a := Action{Op: "ps", N: sq + 1, B: sq + 1, IDs: ids}
+		if r.Chance(10) {
+			a.B++
+		}
+		sq = a.B
+		return a
+	}
 	i := 0
 	if r.Chance(25) { // part of the log happened while the client was offline
 		k := r.Range(1, n)
 		s.Actions = append(s.Actions, Action{Op: "e", N: k})
+		if o.Seq && r.Bool() {
+			sq += r.Range(1, 2)
+			s.Actions = append(s.Actions, Action{Op: "es", N: sq})
+		}
 		i = k
 		if r.Chance(50) {
 			s.Actions = append(s.Actions, Action{Op: "T"})
@@ -139,25 +167,40 @@ func Gen(r *hc.RNG, o GenOptions) (Scenario, map[int]bool) {
 			if r.Chance(15) && len(ids) > 1 { // shuffled inside the container
 				ids[0], ids[len(ids)-1] = ids[len(ids)-1], ids[0]
 			}
-			s.Actions = append(s.Actions, Action{Op: "p", IDs: ids})
+			c := container(ids)
+			s.Actions = append(s.Actions, c)
+			sent = append(sent, c)
 			touch(ids)
 		case r.Chance(50):
 			s.Actions = append(s.Actions, Action{Op: "e", N: 1}) // lost
+			if c := container([]int{id}); c.Op == "ps" {
+				s.Actions = append(s.Actions, Action{Op: "es", N: c.B}) // its number is gone with it: a seq gap
+			}
 		default:
 			s.Actions = append(s.Actions, Action{Op: "e", N: 1})
-			delayed = append(delayed, id) // arrives late
+			c := container([]int{id})
+			if c.Op == "ps" {
+				s.Actions = append(s.Actions, Action{Op: "es", N: c.B})
+			}
+			delayed = append(delayed, c) // arrives late (with the number it was sent with)
 		}
 		i++
 		if len(delayed) > 0 && r.Chance(35) {
 			j := r.Intn(len(delayed))
-			s.Actions = append(s.Actions, Action{Op: "p", IDs: []int{delayed[j]}})
-			touch([]int{delayed[j]})
+			s.Actions = append(s.Actions, delayed[j])
+			sent = append(sent, delayed[j])
+			touch(delayed[j].IDs)
 			delayed = append(delayed[:j], delayed[j+1:]...)
 		}
 		if r.Chance(8) { // duplicate of anything that already happened
 			id := s.Log[r.Intn(i)].ID
 			s.Actions = append(s.Actions, Action{Op: "p", IDs: []int{id}})
 			touch([]int{id})
+		}
+		if o.Seq && len(sent) > 0 && r.Chance(8) { // a whole container arrives a second time
+			c := sent[r.Intn(len(sent))]
+			s.Actions = append(s.Actions, c)
+			touch(c.IDs)
 		}
 		for _, c := range chans { // the access hash of a late channel becomes known
 			if s.Late[c] && !known[c] && r.Chance(12) {
@@ -244,7 +287,7 @@ func Gen(r *hc.RNG, o GenOptions) (Scenario, map[int]bool) {
 	if o.Affected {
 		var as []Action
 		for _, a := range s.Actions {
-			if a.Op != "p" {
+			if a.Op != "p" && a.Op != "ps" {
 				as = append(as, a)
 				continue
 			}
@@ -262,7 +305,9 @@ func Gen(r *hc.RNG, o GenOptions) (Scenario, map[int]bool) {
 				as = append(as, marks...)
 			}
 			if len(ids) > 0 {
-				as = append(as, Action{Op: "p", IDs: ids})
+				as = append(as, Action{Op: a.Op, N: a.N, B: a.B, IDs: ids})
+			} else if a.Op == "ps" {
+				as = append(as, Action{Op: "es", N: a.B})
 			}
 			if !first {
 				as = append(as, marks...)
@@ -278,6 +323,8 @@ func Gen(r *hc.RNG, o GenOptions) (Scenario, map[int]bool) {
 		s.Actions = as
 	}
 	for _, a := range s.Actions {
+		// (a numbered container that is overtaken by a difference is dropped by the seq box with its
+		// position-less updates: only unnumbered pushes promise their delivery)
 		if a.Op == "p" || a.Op == "X" {
 			for _, id := range a.IDs {
 				if s.Log[id-1].Kind == KPlain {
